@@ -1,7 +1,7 @@
 ----------------------------- MODULE Subscription -----------------------------
 (* x/subscription (keeper/subscription.go, msg_server_buy.go, msg_server_auto_renewal.go, cu_tracker.go)
-   together with x/plans (keeper/plan.go) on top of the fixation store, for ONE consumer "c" and two
-   possible buyers ("c" itself and a poorer third party "b").
+   together with x/plans (keeper/plan.go) on top of the fixation store, for the consumers in Consumers ("c1" rich, "c2" poorer) and a
+   poor third-party buyer "b"; every consumer may hold one subscription, all share the plans.
 
    Both the plans and the subscription live in fixation stores, so the spec carries a compact
    transcription of the fixation-store operations these two modules use (AppendEntry incl. the
@@ -33,22 +33,24 @@ CONSTANTS EB,        \* epoch blocks (20 in the Tester)
           GenBias,   \* generator only: failing transactions are mostly skipped
           FixRenew,  \* TRUE = code with the F1 fix
           PlanIdx,   \* plan indices in use, subset of {"p1", "p2"}
-          Buyers,    \* subset of {"c", "b"} containing "c"
+          Consumers, \* subset of {"c1", "c2"}
+          ThirdParty,\* {"b"} or {}: a buyer that is not a consumer
           Durs,      \* months offered to Buy / BuyAdvance
           WithRelay, \* generator: relay payments (C11)
+          WithDrain, \* buyers may spend their tokens elsewhere
           PriceVar   \* price variants of a new plan version: price = base + 10 * n
 
 VARIABLES now,      \* block height
           tm,       \* abstract block time (1 per ordinary block, MONTH per month)
           pl,       \* [PlanIdx -> version map], d = [price]
-          sv,       \* version map of the consumer's subscription, d = sub record
-          mt,       \* armed month timers of the consumer (set of expiries)
-          ct,       \* cu-tracker timers: function height |-> [credit, sblk]
-          tcu,      \* tracked cu: function <<provider, sblk>> |-> cu (cu tracker fixation, abstracted)
+          sv,       \* [Consumers -> version map of the subscription], d = sub record
+          mt,       \* armed month timers: set of <<expiry, consumer>>
+          ct,       \* cu-tracker timers: function <<height, consumer>> |-> [credit, sblk]
+          tcu,      \* tracked cu: function <<consumer, provider, sblk>> |-> cu (cu tracker fixation, abstracted)
           bal,      \* [Buyers -> tokens]
-          mb,       \* tokens held by the subscription module for this consumer
+          mb,       \* tokens held by the subscription module
           pay,      \* last payout (observation): [credit, total, paid, shares, returned, topool]
-          owed,     \* ghost: months still owed to the consumer (C12)
+          owed,     \* ghost: [Consumers -> months still owed] (C12)
           nmonths,  \* month ticks so far
           panicked, \* a begin/end-block panic happened (chain halt)
           nops, hist
@@ -56,6 +58,8 @@ VARIABLES now,      \* block height
 vars == <<now, tm, pl, sv, mt, ct, tcu, bal, mb, pay, owed, nmonths, panicked, nops, hist>>
 
 Providers == {"v1", "v2", "v3"}
+Buyers == Consumers \cup ThirdParty
+StartBal(b) == IF b = "c1" THEN 20000 ELSE IF b = "c2" THEN 420 ELSE 260
 BasePrice(p) == IF p = "p1" THEN 100 ELSE 150
 Discount(p) == IF p = "p1" THEN 20 ELSE 25          \* annual discount percentage
 PlanCu(p) == IF p = "p1" THEN 1000 ELSE 2000        \* PlanPolicy.TotalCuLimit
@@ -196,118 +200,123 @@ Fail(S) == [S EXCEPT !.err = TRUE]
 PlanPrice(S, p, v) == S.pl[p][v].d.price
 FullPrice(price, p, d) == IF d >= 12 THEN ((price * d) * (100 - Discount(p))) \div 100 ELSE price * d
 
-SubAt(S, b, h) == FindV(S.sv, b, h)          \* version found for block b (NONE = no subscription)
+SubAt(S, c, b, h) == FindV(S.sv[c], b, h)          \* version found for block b (NONE = no subscription)
 
 \* addCuTrackerTimerForSubscription (divides by DurationLeft before looking at it: F4)
-AddCuTimer(S, blk, s) ==
+AddCuTimer(S, c, blk, s) ==
   IF s.left = 0 THEN [S |-> [S EXCEPT !.p = TRUE], s |-> s]
   ELSE LET rw == s.credit \div s.left IN
-       [S |-> [S EXCEPT !.ct = Upd(@, blk + BTS - 1, [credit |-> rw, sblk |-> s.blk])],
+       [S |-> [S EXCEPT !.ct = Upd(@, <<blk + BTS - 1, c>>, [credit |-> rw, sblk |-> s.blk])],
         s |-> [s EXCEPT !.credit = @ - rw]]
 
 \* resetSubscriptionDetailsAndAppendEntry: [S, s] (S.err on append failure)
-ResetAppend(S, s, blk, delOld, h, t) ==
+ResetAppend(S, c, s, blk, delOld, h, t) ==
   LET s1 == [s EXCEPT !.cuL = s.cuT, !.blk = blk, !.exp = NextMonth(t)]
-      mt1 == (IF delOld THEN S.mt \ {s.exp} ELSE S.mt) \cup {NextMonth(t)}
-      a == AppendV(S.sv, blk, s1, h)
-  IN [S |-> [S EXCEPT !.mt = mt1, !.sv = a.V, !.err = a.err, !.p = @ \/ a.p], s |-> s1]
+      mt1 == (IF delOld THEN S.mt \ {<<s.exp, c>>} ELSE S.mt) \cup {<<NextMonth(t), c>>}
+      a == AppendV(S.sv[c], blk, s1, h)
+  IN [S |-> [S EXCEPT !.mt = mt1, !.sv[c] = a.V, !.err = a.err, !.p = @ \/ a.p], s |-> s1]
 
 \* RemoveExpiredSubscription
-RemoveExpired(S, blk, pi, pb, h) ==
-  LET d == DelV(S.sv, blk, h) IN
+RemoveExpired(S, c, blk, pi, pb, h) ==
+  LET d == DelV(S.sv[c], blk, h) IN
   IF d.err THEN [S EXCEPT !.p = @ \/ d.p]
   ELSE LET r == PutV(S.pl[pi], pb, h) IN
-       [S EXCEPT !.sv = d.V, !.pl[pi] = r.V, !.p = @ \/ d.p \/ r.p, !.owed = 0]
+       [S EXCEPT !.sv[c] = d.V, !.pl[pi] = r.V, !.p = @ \/ d.p \/ r.p, !.owed[c] = 0]
 
-\* renewSubscription(sub) inside advanceMonth; s already has left = 0 and is saved
-Renew(S, s, ne, h, t) ==
+\* renewSubscription(sub) inside advanceMonth; s already has left = 0 and is saved.
+\* Code after the F1 fix: nothing of the subscription and no plan reference changes before all checks passed.
+Renew(S, c, s, ne, h, t) ==
   LET p  == s.auto
       nv == FindV(S.pl[p], h, h)
-  IN IF nv = NONE THEN RemoveExpired(S, ne, s.pi, s.pb, h)
+  IN IF nv = NONE THEN RemoveExpired(S, c, ne, s.pi, s.pb, h)
      ELSE LET price == PlanPrice(S, p, nv)
-              \* the code overwrites sub.PlanIndex/PlanBlock first; on the insufficient-funds failure
-              \* RemoveExpiredSubscription is therefore called with the NEW plan reference
               s1 == [s EXCEPT !.pi = p, !.pb = nv, !.bought = @ + 1, !.left = 1, !.blk = h]
           IN IF S.bal[s.cr] < price
-             THEN IF FixRenew THEN RemoveExpired(S, ne, s.pi, s.pb, h)
-                  ELSE RemoveExpired(S, ne, s1.pi, s1.pb, h)
+             THEN IF FixRenew THEN RemoveExpired(S, c, ne, s.pi, s.pb, h)
+                  ELSE RemoveExpired(S, c, ne, s1.pi, s1.pb, h)      \* pre-fix: fields already overwritten
              ELSE LET S1 == [S EXCEPT !.bal[s.cr] = @ - price, !.mb = @ + price]
                       s2 == [s1 EXCEPT !.credit = @ + price]
-                      ra == ResetAppend(S1, s2, h, FALSE, h, t)
-                  IN IF ra.S.err THEN RemoveExpired([ra.S EXCEPT !.err = FALSE], ne, s1.pi, s1.pb, h)
+                      ra == ResetAppend(S1, c, s2, h, FALSE, h, t)
+                  IN IF ra.S.err THEN RemoveExpired([ra.S EXCEPT !.err = FALSE], c, ne, s1.pi, s1.pb, h)
                      ELSE IF FixRenew /\ (p # s.pi \/ nv # s.pb)
                      THEN LET r1 == PutV(ra.S.pl[s.pi], s.pb, h)
                               P1 == [ra.S.pl EXCEPT ![s.pi] = r1.V]
                               g  == GetV(P1[p], h)
-                          IN [ra.S EXCEPT !.pl = [P1 EXCEPT ![p] = g.V], !.p = @ \/ r1.p, !.owed = 1]
-                     ELSE [ra.S EXCEPT !.owed = 1]
+                          IN [ra.S EXCEPT !.pl = [P1 EXCEPT ![p] = g.V], !.p = @ \/ r1.p, !.owed[c] = 1]
+                     ELSE [ra.S EXCEPT !.owed[c] = 1]
 
-\* advanceMonth timer callback at height h, time t
-AdvanceMonth(S, h, t) ==
+\* advanceMonth timer callback of consumer c at height h, time t
+AdvanceMonth(S, c, h, t) ==
   LET ne == CbNextEpoch(h)
-      v  == SubAt(S, ne, h)
+      v  == SubAt(S, c, ne, h)
   IN IF v = NONE THEN S
-     ELSE LET s0 == S.sv[v].d
-              c  == AddCuTimer(S, ne, s0)
-          IN IF c.S.p THEN c.S
-             ELSE LET s == [c.s EXCEPT !.left = @ - 1]  S1 == c.S IN
+     ELSE LET s0 == S.sv[c][v].d
+              a  == AddCuTimer(S, c, ne, s0)
+          IN IF a.S.p THEN a.S
+             ELSE LET s == [a.s EXCEPT !.left = @ - 1]  S1 == a.S IN
              IF s.left > 0
-             THEN LET ra == ResetAppend(S1, [s EXCEPT !.total = @ + 1], ne, FALSE, h, t)
-                  IN [ra.S EXCEPT !.err = FALSE, !.owed = IF @ > 0 THEN @ - 1 ELSE 0]
+             THEN LET ra == ResetAppend(S1, c, [s EXCEPT !.total = @ + 1], ne, FALSE, h, t)
+                  IN [ra.S EXCEPT !.err = FALSE, !.owed[c] = IF @ > 0 THEN @ - 1 ELSE 0]
              ELSE IF s.fut.on
              THEN IF FindV(S1.pl[s.fut.pi], s.fut.pb, h) = NONE
-                  THEN RemoveExpired(S1, ne, s.pi, s.pb, h)
+                  THEN RemoveExpired(S1, c, ne, s.pi, s.pb, h)
                   ELSE LET s2 == [s EXCEPT !.cr = s.fut.cr, !.pi = s.fut.pi, !.pb = s.fut.pb,
                                            !.bought = s.fut.d, !.left = s.fut.d, !.total = 0,
                                            !.fut = NoFut, !.cuT = PlanCu(s.fut.pi), !.credit = s.fut.credit]
-                           ra == ResetAppend(S1, s2, ne, FALSE, h, t)
-                       IN [ra.S EXCEPT !.err = FALSE, !.owed = s.fut.d]
+                           ra == ResetAppend(S1, c, s2, ne, FALSE, h, t)
+                       IN [ra.S EXCEPT !.err = FALSE, !.owed[c] = s.fut.d]
              ELSE IF s.auto # "none"
-             THEN Renew([S1 EXCEPT !.sv = ModifyV(@, s.blk, s)], s, ne, h, t)
-             ELSE RemoveExpired(S1, ne, s.pi, s.pb, h)
+             THEN Renew([S1 EXCEPT !.sv[c] = ModifyV(@, s.blk, s)], c, s, ne, h, t)
+             ELSE RemoveExpired(S1, c, ne, s.pi, s.pb, h)
 
-\* RewardAndResetCuTracker at EndBlock of height h
-Payout(S, h) ==
-  IF h \notin DOMAIN S.ct THEN S
-  ELSE
-  LET td == S.ct[h]
-      S0 == [S EXCEPT !.ct = Rem(@, h)]
-      keys == {k \in DOMAIN S.tcu : k[2] = td.sblk}
-      total == LET RECURSIVE Sum(_) Sum(K) == IF K = {} THEN 0 ELSE LET k == CHOOSE x \in K : TRUE IN S.tcu[k] + Sum(K \ {k})
-               IN Sum(keys)
+RECURSIVE SumF(_, _)
+SumF(f, K) == IF K = {} THEN 0 ELSE LET k == CHOOSE x \in K : TRUE IN f[k] + SumF(f, K \ {k})
+
+\* RewardAndResetCuTracker of consumer c at EndBlock of height h
+Payout1(S, c, h) ==
+  LET td == S.ct[<<h, c>>]
+      S0 == [S EXCEPT !.ct = Rem(@, <<h, c>>)]
+      keys == {k \in DOMAIN S.tcu : k[1] = c /\ k[3] = td.sblk}
+      total == SumF(S.tcu, keys)
   IN IF total = 0
-     THEN LET v == SubAt(S0, h, h) IN
+     THEN LET v == SubAt(S0, c, h, h) IN
           IF v # NONE
-          THEN [S0 EXCEPT !.sv = ModifyV(@, v, [@[v].d EXCEPT !.credit = @ + td.credit]),
+          THEN [S0 EXCEPT !.sv[c] = ModifyV(@, v, [@[v].d EXCEPT !.credit = @ + td.credit]),
                           !.pay = [NoPay EXCEPT !.credit = td.credit, !.returned = td.credit]]
           ELSE [S0 EXCEPT !.mb = @ - td.credit, !.pay = [NoPay EXCEPT !.credit = td.credit, !.topool = td.credit]]
      ELSE LET amt == IF td.credit \div total > LIMIT_PER_CU THEN LIMIT_PER_CU * total ELSE td.credit
-              paid == LET RECURSIVE Sum(_) Sum(K) == IF K = {} THEN 0 ELSE LET k == CHOOSE x \in K : TRUE IN ((amt * S.tcu[k]) \div total) + Sum(K \ {k})
-                      IN Sum(keys)
+              paid == SumF([k \in keys |-> (amt * S.tcu[k]) \div total], keys)
           IN [S0 EXCEPT !.tcu = RemS(@, keys), !.mb = @ - paid,
                         !.pay = [NoPay EXCEPT !.credit = td.credit, !.total = total, !.paid = paid]]
+RECURSIVE PayoutAll(_, _, _)
+PayoutAll(S, cs, h) == IF cs = {} THEN S
+                       ELSE LET c == CHOOSE x \in cs : TRUE IN
+                            PayoutAll(IF <<h, c>> \in DOMAIN S.ct THEN Payout1(S, c, h) ELSE S, cs \ {c}, h)
+Payout(S, h) == PayoutAll(S, Consumers, h)
 
-\* one block: EndBlock(h-1), BeginBlock(h) at time t.  fire = month timers are due (t >= expiry)
+\* one block: EndBlock(h-1), BeginBlock(h) at time t.  Month timers fire in (expiry, consumer) order.
+CRank(c) == IF c = "c1" THEN 1 ELSE 2
 RECURSIVE FireMonths(_, _, _)
 FireMonths(S, h, t) ==
-  LET due == {e \in S.mt : e <= t} IN
+  LET due == {x \in S.mt : x[1] <= t} IN
   IF due = {} \/ S.p THEN S
-  ELSE LET e == Min(due) IN FireMonths(AdvanceMonth([S EXCEPT !.mt = @ \ {e}], h, t), h, t)
+  ELSE LET x == CHOOSE y \in due : \A z \in due : y[1] < z[1] \/ (y[1] = z[1] /\ CRank(y[2]) <= CRank(z[2]))
+       IN FireMonths(AdvanceMonth([S EXCEPT !.mt = @ \ {x}], x[2], h, t), h, t)
 
 OneBlock(S, h, t) ==
   LET S1 == Payout(S, h - 1)
       tp == [p \in PlanIdx |-> TickV(S1.pl[p], h)]
-      ts == TickV(S1.sv, h)
-      S2 == [S1 EXCEPT !.pl = [p \in PlanIdx |-> tp[p].V], !.sv = ts.V,
-                       !.p = @ \/ ts.p \/ (\E p \in PlanIdx : tp[p].p)]
+      ts == [c \in Consumers |-> TickV(S1.sv[c], h)]
+      S2 == [S1 EXCEPT !.pl = [p \in PlanIdx |-> tp[p].V], !.sv = [c \in Consumers |-> ts[c].V],
+                       !.p = @ \/ (\E c \in Consumers : ts[c].p) \/ (\E p \in PlanIdx : tp[p].p)]
   IN IF S2.p THEN S2 ELSE FireMonths(S2, h, t)
 
 \* heights in (h, hEnd] at which something is scheduled (long advances jump from one to the next)
 Busy(S, h, hEnd) ==
-  LET c == {x + 1 : x \in DOMAIN S.ct}
+  LET x0 == {k[1] + 1 : k \in DOMAIN S.ct}
            \cup UNION {UNION {{S.pl[p][v].del, S.pl[p][v].stale} : v \in DOMAIN S.pl[p]} : p \in PlanIdx}
-           \cup UNION {{S.sv[v].del, S.sv[v].stale, v} : v \in DOMAIN S.sv}
-  IN {x \in c : x > h /\ x <= hEnd}
+           \cup UNION {UNION {{S.sv[c][v].del, S.sv[c][v].stale, v} : v \in DOMAIN S.sv[c]} : c \in Consumers}
+  IN {x \in x0 : x > h /\ x <= hEnd}
 RECURSIVE Blocks(_, _, _, _)
 Blocks(S, h, t, n) ==    \* n ordinary blocks starting after height h / time t
   IF n = 0 \/ S.p THEN S
@@ -322,31 +331,31 @@ NewSub(cr, p, v, au) ==
    credit |-> 0, auto |-> IF au THEN p ELSE "none", fut |-> NoFut, exp |-> 0, blk |-> now]
 
 \* upgradeSubscriptionPlan
-Upgrade(S, s, p, v, h, t) ==
+Upgrade(S, c, s, p, v, h, t) ==
   LET ne == NextEpoch(h) IN
   IF s.blk = ne THEN [S |-> Fail(S), s |-> s]
   ELSE IF FindV(S.pl[s.pi], s.pb, h) = NONE THEN [S |-> Fail(S), s |-> s]
   ELSE IF PlanPrice(S, p, v) < PlanPrice(S, s.pi, s.pb) THEN [S |-> Fail(S), s |-> s]
-  ELSE LET c == AddCuTimer(S, h, s) IN
-       IF c.S.p THEN [S |-> c.S, s |-> s]
-       ELSE LET s1 == [c.s EXCEPT !.total = 0, !.left = 0, !.pi = p, !.pb = v, !.cuT = PlanCu(p), !.credit = 0]
-            IN ResetAppend(c.S, s1, ne, TRUE, h, t)
+  ELSE LET a == AddCuTimer(S, c, h, s) IN
+       IF a.S.p THEN [S |-> a.S, s |-> s]
+       ELSE LET s1 == [a.s EXCEPT !.total = 0, !.left = 0, !.pi = p, !.pb = v, !.cuT = PlanCu(p), !.credit = 0]
+            IN ResetAppend(a.S, c, s1, ne, TRUE, h, t)
 
-BuyTx(cr, p, d, au) ==
+BuyTx(cr, c, p, d, au) ==
   LET h == now  t == tm  ne == NextEpoch(now)
       g == GetV(pl[p], h)
       S0 == [Cur EXCEPT !.pl[p] = g.V]
-      v == SubAt(S0, ne, h)
+      v == SubAt(S0, c, ne, h)
   IN IF g.v = NONE THEN Fail(Cur)
      ELSE
      LET isNew == v = NONE
          \* createNewSubscription -> CreateAdminProject fails while the admin project of a subscription that
          \* expired in this epoch still exists (both are deleted at the next epoch)
-         pre == IF isNew THEN [S |-> IF SubAt(S0, h, h) # NONE THEN Fail(S0) ELSE S0, s |-> NewSub(cr, p, g.v, au)]
-                ELSE LET s == S0.sv[v].d IN
+         pre == IF isNew THEN [S |-> IF SubAt(S0, c, h, h) # NONE THEN Fail(S0) ELSE S0, s |-> NewSub(cr, p, g.v, au)]
+                ELSE LET s == S0.sv[c][v].d IN
                      IF p # s.pi
-                     THEN IF s.cr # cr /\ cr # "c" THEN [S |-> Fail(S0), s |-> s]
-                          ELSE Upgrade(S0, s, p, g.v, h, t)
+                     THEN IF s.cr # cr /\ cr # c THEN [S |-> Fail(S0), s |-> s]
+                          ELSE Upgrade(S0, c, s, p, g.v, h, t)
                      ELSE IF g.v # s.pb THEN [S |-> Fail(S0), s |-> s]
                      ELSE [S |-> S0, s |-> s]
      IN IF pre.S.err \/ pre.S.p THEN pre.S
@@ -356,40 +365,40 @@ BuyTx(cr, p, d, au) ==
              IN IF s1.left > MAXDUR + 1 \/ d > MAXDUR THEN Fail(pre.S)
                 ELSE LET S1 == IF isNew
                                THEN LET s2 == [s1 EXCEPT !.exp = NextMonth(t), !.blk = h]
-                                        a == AppendV(pre.S.sv, h, s2, h)
-                                    IN [pre.S EXCEPT !.sv = a.V, !.err = a.err, !.p = @ \/ a.p, !.mt = @ \cup {NextMonth(t)}]
-                               ELSE [pre.S EXCEPT !.sv = ModifyV(@, s1.blk, s1)]
+                                        a == AppendV(pre.S.sv[c], h, s2, h)
+                                    IN [pre.S EXCEPT !.sv[c] = a.V, !.err = a.err, !.p = @ \/ a.p, !.mt = @ \cup {<<NextMonth(t), c>>}]
+                               ELSE [pre.S EXCEPT !.sv[c] = ModifyV(@, s1.blk, s1)]
                      IN IF S1.err \/ S1.p THEN S1
                         ELSE IF S1.bal[cr] < price THEN Fail(S1)
                         ELSE [S1 EXCEPT !.bal[cr] = @ - price, !.mb = @ + price,
-                                        !.owed = IF isNew \/ p # S0.sv[v].d.pi THEN d ELSE @ + d]
+                                        !.owed[c] = IF isNew \/ p # S0.sv[c][v].d.pi THEN d ELSE @ + d]
 
-AdvTx(cr, p, d) ==
+AdvTx(cr, c, p, d) ==
   LET h == now  ne == NextEpoch(now)
       g == GetV(pl[p], h)
       S0 == [Cur EXCEPT !.pl[p] = g.V]
-      v == SubAt(S0, ne, h)
+      v == SubAt(S0, c, ne, h)
   IN IF g.v = NONE \/ d > MAXDUR \/ v = NONE THEN Fail(Cur)
-     ELSE LET s == S0.sv[v].d
+     ELSE LET s == S0.sv[c][v].d
               np == FullPrice(PlanPrice(S0, p, g.v), p, d)
               charge == IF s.fut.on THEN np - s.fut.credit ELSE np
           IN IF s.fut.on /\ (FindV(S0.pl[s.fut.pi], s.fut.pb, h) = NONE \/ np <= s.fut.credit) THEN Fail(S0)
              ELSE IF S0.bal[cr] < charge THEN Fail(S0)
              ELSE [S0 EXCEPT !.bal[cr] = @ - charge, !.mb = @ + charge,
-                             !.sv = ModifyV(@, s.blk, [s EXCEPT !.fut = [on |-> TRUE, cr |-> cr, pi |-> p, pb |-> g.v,
-                                                                         d |-> d, credit |-> np]])]
+                             !.sv[c] = ModifyV(@, s.blk, [s EXCEPT !.fut = [on |-> TRUE, cr |-> cr, pi |-> p, pb |-> g.v,
+                                                                            d |-> d, credit |-> np]])]
 
-AutoTx(cr, en, p) ==
+AutoTx(cr, c, en, p) ==
   LET h == now
-      v == SubAt(Cur, h, h)
+      v == SubAt(Cur, c, h, h)
   IN IF v = NONE THEN Fail(Cur)
-     ELSE LET s == sv[v].d
+     ELSE LET s == sv[c][v].d
               idx == IF p = "" THEN s.pi ELSE p
-          IN IF cr # "c" /\ cr # s.cr THEN Fail(Cur)
+          IN IF cr # c /\ cr # s.cr THEN Fail(Cur)
              ELSE IF ~en /\ s.auto = "none" THEN Fail(Cur)
              ELSE IF en /\ FindV(pl[idx], h, h) = NONE THEN Fail(Cur)
-             ELSE LET a == AppendV(sv, s.blk, [s EXCEPT !.cr = cr, !.auto = IF en THEN idx ELSE "none"], h)
-                  IN [Cur EXCEPT !.sv = a.V, !.err = a.err, !.p = a.p]
+             ELSE LET a == AppendV(sv[c], s.blk, [s EXCEPT !.cr = cr, !.auto = IF en THEN idx ELSE "none"], h)
+                  IN [Cur EXCEPT !.sv[c] = a.V, !.err = a.err, !.p = a.p]
 
 PlanAddTx(p, price) ==
   LET a == AppendV(pl[p], now, [price |-> price], now) IN
@@ -398,20 +407,23 @@ PlanDelTx(p) ==
   LET d == DelV(pl[p], NextEpoch(now), now) IN
   [Cur EXCEPT !.pl[p] = d.V, !.err = d.err, !.p = d.p]
 
-\* relay payment of cu by provider pv: tracked under the block of the subscription version found for the
-\* current epoch start; the subscription's month CU is charged (never below zero)
-RelayTx(pv, cu) ==
+\* relay payment of cu by provider pv for consumer c: tracked under the block of the subscription version found for
+\* the current epoch start; the subscription's month CU is charged (never below zero)
+RelayTx(pv, c, cu) ==
   LET h == now
       eps == (h \div EB) * EB
-      v == SubAt(Cur, eps, h)
+      v == SubAt(Cur, c, eps, h)
   IN IF v = NONE THEN Fail(Cur)
-     ELSE LET s == sv[v].d
-              k == <<pv, s.blk>>
-          IN [Cur EXCEPT !.sv = ModifyV(@, v, [s EXCEPT !.cuL = IF @ < cu THEN 0 ELSE @ - cu]),
+     ELSE LET s == sv[c][v].d
+              k == <<c, pv, s.blk>>
+          IN [Cur EXCEPT !.sv[c] = ModifyV(@, v, [s EXCEPT !.cuL = IF @ < cu THEN 0 ELSE @ - cu]),
                          !.tcu = Upd(@, k, (IF k \in DOMAIN tcu THEN tcu[k] ELSE 0) + cu)]
 
+\* a buyer spends tokens elsewhere (bank send): the way renewals and purchases run out of funds
+DrainTx(cr, keep) == IF bal[cr] <= keep THEN Fail(Cur) ELSE [Cur EXCEPT !.bal[cr] = keep]
+
 Record(r) == hist' = IF GenHist THEN Append(hist, r) ELSE hist
-Rec(a, cr, p, d, f, n) == [a |-> a, cr |-> cr, p |-> p, d |-> d, f |-> f, n |-> n]
+Rec(a, cr, c, p, d, f, n) == [a |-> a, cr |-> cr, c |-> c, p |-> p, d |-> d, f |-> f, n |-> n]
 
 \* a transaction: on error or panic the state is unchanged (baseapp semantics)
 Tx(S, r) == /\ ~panicked
@@ -420,42 +432,45 @@ Tx(S, r) == /\ ~panicked
             /\ UNCHANGED <<now, tm, nmonths, panicked>>
             /\ Record(r)
 
-Buy(cr, p, d, au)  == Tx(BuyTx(cr, p, d, au), Rec("buy", cr, p, d, au, 0))
-BuyAdvance(cr, p, d) == Tx(AdvTx(cr, p, d), Rec("adv", cr, p, d, FALSE, 0))
-AutoRenew(cr, en, p) == Tx(AutoTx(cr, en, p), Rec("auto", cr, p, 0, en, 0))
-PlanAdd(p, n)      == Tx(PlanAddTx(p, BasePrice(p) + 10 * n), Rec("planadd", "", p, 0, FALSE, n))
-PlanDel(p)         == Tx(PlanDelTx(p), Rec("plandel", "", p, 0, FALSE, 0))
-Relay(pv, cu)      == Tx(RelayTx(pv, cu), Rec("relay", pv, "", cu, FALSE, 0))
+Buy(cr, c, p, d, au)  == Tx(BuyTx(cr, c, p, d, au), Rec("buy", cr, c, p, d, au, 0))
+BuyAdvance(cr, c, p, d) == Tx(AdvTx(cr, c, p, d), Rec("adv", cr, c, p, d, FALSE, 0))
+AutoRenew(cr, c, en, p) == Tx(AutoTx(cr, c, en, p), Rec("auto", cr, c, p, 0, en, 0))
+PlanAdd(p, n)      == Tx(PlanAddTx(p, BasePrice(p) + 10 * n), Rec("planadd", "", "", p, 0, FALSE, n))
+PlanDel(p)         == Tx(PlanDelTx(p), Rec("plandel", "", "", p, 0, FALSE, 0))
+Relay(pv, c, cu)   == Tx(RelayTx(pv, c, cu), Rec("relay", pv, c, "", cu, FALSE, 0))
+Drain(cr, keep)    == Tx(DrainTx(cr, keep), Rec("drain", cr, "", "", keep, FALSE, 0))
 
 Adv(S, n, r) == /\ ~panicked
                 /\ Install(S) /\ panicked' = S.p
                 /\ now' = now + n /\ tm' = tm + n
                 /\ UNCHANGED nmonths
                 /\ Record(r)
-Block == Adv(Blocks(Cur, now, tm, 1), 1, Rec("block", "", "", 0, FALSE, 1))
-Epoch == LET n == NextEpoch(now) - now IN Adv(Blocks(Cur, now, tm, n), n, Rec("epoch", "", "", 0, FALSE, n))
-Stale == LET n == NextEpoch(now + StaleP) - now IN Adv(Blocks(Cur, now, tm, n), n, Rec("stale", "", "", 0, FALSE, n))
-\* one block whose time is the earliest month expiry.  Environment assumption: an epoch is shorter than a
-\* month, i.e. no subscription version is still waiting for the next epoch.
+Block == Adv(Blocks(Cur, now, tm, 1), 1, Rec("block", "", "", "", 0, FALSE, 1))
+Epoch == LET n == NextEpoch(now) - now IN Adv(Blocks(Cur, now, tm, n), n, Rec("epoch", "", "", "", 0, FALSE, n))
+Stale == LET n == NextEpoch(now + StaleP) - now IN Adv(Blocks(Cur, now, tm, n), n, Rec("stale", "", "", "", 0, FALSE, n))
+\* one block whose time is the earliest month expiry (of any consumer).  Environment assumption: an epoch is
+\* shorter than a month, i.e. no subscription version is still waiting for the next epoch.
 Month == /\ ~panicked /\ mt # {} /\ nmonths < MaxMonths
-         /\ \A v \in DOMAIN sv : v <= now
-         /\ LET t == Min(mt)
+         /\ \A c \in Consumers : \A v \in DOMAIN sv[c] : v <= now
+         /\ LET t == Min({x[1] : x \in mt})
                 S == OneBlock(Cur, now + 1, t)
             IN /\ t > tm
                /\ Install(S) /\ panicked' = S.p
                /\ now' = now + 1 /\ tm' = t /\ nmonths' = nmonths + 1
-               /\ Record(Rec("month", "", "", 0, FALSE, 1))
+               /\ Record(Rec("month", "", "", "", 0, FALSE, 1))
 
 Init == /\ now = EB /\ tm = 0
-        /\ pl = [p \in PlanIdx |-> <<>>] /\ sv = <<>> /\ mt = {} /\ ct = <<>> /\ tcu = <<>>
-        /\ bal = [b \in Buyers |-> IF b = "c" THEN 20000 ELSE 260]
-        /\ mb = 0 /\ pay = NoPay /\ owed = 0 /\ nmonths = 0 /\ panicked = FALSE /\ nops = 0 /\ hist = <<>>
+        /\ pl = [p \in PlanIdx |-> <<>>] /\ sv = [c \in Consumers |-> <<>>] /\ mt = {} /\ ct = <<>> /\ tcu = <<>>
+        /\ bal = [b \in Buyers |-> StartBal(b)]
+        /\ mb = 0 /\ pay = NoPay /\ owed = [c \in Consumers |-> 0] /\ nmonths = 0 /\ panicked = FALSE /\ nops = 0 /\ hist = <<>>
 
+CreatorsOf(c) == {c} \cup ThirdParty
 Ops == \/ \E p \in PlanIdx, n \in PriceVar : PlanAdd(p, n)
        \/ \E p \in PlanIdx : PlanDel(p)
-       \/ \E cr \in Buyers, p \in PlanIdx, d \in Durs, au \in BOOLEAN : Buy(cr, p, d, au)
-       \/ \E cr \in Buyers, p \in PlanIdx, d \in Durs : BuyAdvance(cr, p, d)
-       \/ \E cr \in Buyers, en \in BOOLEAN, p \in PlanIdx \cup {""} : AutoRenew(cr, en, p)
+       \/ \E c \in Consumers : \E cr \in CreatorsOf(c), p \in PlanIdx, d \in Durs, au \in BOOLEAN : Buy(cr, c, p, d, au)
+       \/ \E c \in Consumers : \E cr \in CreatorsOf(c), p \in PlanIdx, d \in Durs : BuyAdvance(cr, c, p, d)
+       \/ \E c \in Consumers : \E cr \in CreatorsOf(c), en \in BOOLEAN, p \in PlanIdx \cup {""} : AutoRenew(cr, c, en, p)
+       \/ (WithDrain /\ \E cr \in Buyers : Drain(cr, 50))
        \/ Block \/ Epoch \/ Stale \/ Month
 Next == nops < MaxOps /\ nops' = nops + 1 /\ Ops
 Spec == Init /\ [][Next]_vars
@@ -467,28 +482,40 @@ GenNext ==
   /\ nops < MaxOps /\ nops' = nops + 1
   /\ \/ (RandomElement(1..2) = 1 /\ \E p \in One(PlanIdx), n \in One(PriceVar) : PlanAdd(p, n))
      \/ (RandomElement(1..3) = 1 /\ \E p \in One(PlanIdx) : PlanDel(p))
-     \/ \E cr \in One(Buyers \cup {"c"}), p \in One(PlanIdx), d \in One(Durs \cup {1}), au \in One(BOOLEAN) : Buy(cr, p, d, au)
-     \/ \E cr \in One(Buyers), p \in One(PlanIdx), d \in One(Durs) : BuyAdvance(cr, p, d)
-     \/ \E cr \in One(Buyers), en \in One(BOOLEAN), p \in One(PlanIdx \cup {""}) : AutoRenew(cr, en, p)
+     \/ \E c \in One(Consumers) : \E cr \in One(CreatorsOf(c) \cup {c}), p \in One(PlanIdx), d \in One(Durs \cup {1}), au \in One(BOOLEAN) : Buy(cr, c, p, d, au)
+     \/ \E c \in One(Consumers) : \E cr \in One(CreatorsOf(c)), p \in One(PlanIdx), d \in One(Durs) : BuyAdvance(cr, c, p, d)
+     \/ \E c \in One(Consumers) : \E cr \in One(CreatorsOf(c)), en \in One(BOOLEAN), p \in One(PlanIdx \cup {""}) : AutoRenew(cr, c, en, p)
+     \/ (WithDrain /\ RandomElement(1..4) = 1 /\ \E cr \in One(Buyers), k \in One({0, 50, 120}) : Drain(cr, k))
      \/ (RandomElement(1..2) = 1 /\ Block) \/ (RandomElement(1..2) = 1 /\ Epoch) \/ (RandomElement(1..2) = 1 /\ Stale)
      \/ Month
-     \/ (WithRelay /\ \E pv \in One(Providers), cu \in One({10, 70, 150, 400}) : Relay(pv, cu))
-     \/ (WithRelay /\ \E pv \in One(Providers), cu \in One({1, 10, 70}) : Relay(pv, cu))
+     \/ (WithRelay /\ \E pv \in One(Providers), c \in One(Consumers), cu \in One({10, 70, 150, 400}) : Relay(pv, c, cu))
+     \/ (WithRelay /\ \E pv \in One(Providers), c \in One(Consumers), cu \in One({1, 10, 70}) : Relay(pv, c, cu))
 Emit == nops < MaxOps \/ PrintT(<<"BEH", ToJson(hist)>>)
 NoHistView == <<now, tm, pl, sv, mt, ct, tcu, bal, mb, pay, owed, nmonths, panicked, nops>>
 
 -----------------------------------------------------------------------------
 \* Properties
-CurV == FindV(sv, now, now)
-SubOn == CurV # NONE
-CurSub == sv[CurV].d
+CurV(c) == FindV(sv[c], now, now)
+SubOn(c) == CurV(c) # NONE
+CurSub(c) == sv[c][CurV(c)].d
 
-\* C13: the plan version of the live subscription (and of its advance purchase) can be looked up; no chain halt
-PlanAvailable == SubOn => FindV(pl[CurSub.pi], CurSub.pb, now) # NONE
+\* C13: the plan version of every live subscription can be looked up; no chain halt
+PlanAvailable == \A c \in Consumers : SubOn(c) => FindV(pl[CurSub(c).pi], CurSub(c).pb, now) # NONE
 NoPanic == ~panicked
+\* C13 ghost: every plan version carries at least one reference per holder.  Holders = subscriptions whose newest
+\* version (not marked for removal) points to it, advance purchases recorded on such a version, and the "latest" flag.
+NewestV(c) == IF DOMAIN sv[c] = {} THEN NONE ELSE Max(DOMAIN sv[c])
+Holds(c, p, v) == LET n == NewestV(c) IN
+                  IF n = NONE \/ sv[c][n].del < INF THEN 0
+                  ELSE (IF sv[c][n].d.pi = p /\ sv[c][n].d.pb = v THEN 1 ELSE 0)
+                       + (IF sv[c][n].d.fut.on /\ sv[c][n].d.fut.pi = p /\ sv[c][n].d.fut.pb = v THEN 1 ELSE 0)
+Holders(p, v) == SumF([c \in Consumers |-> Holds(c, p, v)], Consumers) + (IF pl[p][v].latest THEN 1 ELSE 0)
+RefsCoverHolders == \A p \in PlanIdx : \A v \in DOMAIN pl[p] : pl[p][v].ref >= Holders(p, v)
+HeldVersionsExist == \A c \in Consumers : LET n == NewestV(c) IN
+                     (n # NONE /\ sv[c][n].del = INF) => sv[c][n].d.pb \in DOMAIN pl[sv[c][n].d.pi]
 \* C12
-CuBounded == SubOn => (CurSub.cuL >= 0 /\ CurSub.cuL <= CurSub.cuT)
+CuBounded == \A c \in Consumers : SubOn(c) => (CurSub(c).cuL >= 0 /\ CurSub(c).cuL <= CurSub(c).cuT)
 \* (a subscription whose removal is pending until the next epoch may show left = 0)
-LeftPositive == (SubOn /\ sv[CurV].del = INF) => CurSub.left >= 1
+LeftPositive == \A c \in Consumers : (SubOn(c) /\ sv[c][CurV(c)].del = INF) => CurSub(c).left >= 1
 TypeOK == /\ now >= EB /\ mb >= 0 /\ \A b \in Buyers : bal[b] >= 0
 =============================================================================
